@@ -22,5 +22,6 @@ finally:
     work.cleanup() if hasattr(work, "cleanup") else None
 out = os.path.join(VERIF, "tables", "known_functions.json")
 fields = sorted({(fl.get("name") if isinstance(fl, dict) else str(fl)) for a in prog.adts.values() for v in a.get("variants", []) for fl in v.get("fields", [])} - {None})
-json.dump({"fields": fields, "_comment": "function keys of the reviewed tree; helpers not listed here are inlined into their callers before the rules run (inkalint/inline.py)", "functions": keys, "signatures": sigs}, open(out, "w"), indent=0)
+adts = {k: [[v.get("name"), [[fl.get("name"), fl.get("ty")] for fl in v.get("fields", [])]] for v in a.get("variants", [])] for k, a in prog.adts.items() if k.startswith("inkayaku_")}
+json.dump({"adts": adts, "fields": fields, "_comment": "function keys of the reviewed tree; helpers not listed here are inlined into their callers before the rules run (inkalint/inline.py)", "functions": keys, "signatures": sigs}, open(out, "w"), indent=0)
 print(len(keys), "functions")
